@@ -7,8 +7,9 @@ import (
 )
 
 // Y is a scheduling point placed before an operation that may block or hand control to
-// another goroutine. No-op outside a simulation, for goroutines that are not tasks, and
-// while the task holds a simulated lock (a task never parks holding a mutex).
+// another goroutine. No-op outside a simulation and for goroutines that are not tasks.
+// A task may park while it holds a mutex: every acquisition in instrumented code is a TryLock
+// loop (Lock below), so nobody ever blocks on a held mutex in a way the bubble cannot see.
 //
 //go:norace
 func Y(site string) {
@@ -17,7 +18,7 @@ func Y(site string) {
 		return
 	}
 	tk := lookupTask()
-	if tk == nil || tk.lockDepth > 0 || tk.dying {
+	if tk == nil || tk.dying {
 		return
 	}
 	raceDisable()
@@ -36,7 +37,7 @@ func W(site string) {
 		return
 	}
 	tk := lookupTask()
-	if tk == nil || tk.lockDepth > 0 || tk.dying {
+	if tk == nil || tk.dying {
 		return
 	}
 	raceDisable()
@@ -134,18 +135,10 @@ func Lock(site string, m tryLocker) {
 		tk.lockDepth++
 		return
 	}
-	if tk.lockDepth == 0 {
-		raceDisable()
-		s.park(tk, pkYield, site)
-		raceEnable()
-	}
+	raceDisable()
+	s.park(tk, pkYield, site)
+	raceEnable()
 	for !m.TryLock() {
-		if tk.lockDepth > 0 {
-			// nested acquisition while holding another lock: cannot park; spin via the
-			// real lock (the holder cannot be parked, so it is running or durably blocked)
-			m.Lock()
-			break
-		}
 		raceDisable()
 		tk.lockEpoch = s.unlockEpch
 		s.park(tk, pkLock, site)
@@ -191,16 +184,10 @@ func RLock(site string, m tryRLocker) {
 		tk.lockDepth++
 		return
 	}
-	if tk.lockDepth == 0 {
-		raceDisable()
-		s.park(tk, pkYield, site)
-		raceEnable()
-	}
+	raceDisable()
+	s.park(tk, pkYield, site)
+	raceEnable()
 	for !m.TryRLock() {
-		if tk.lockDepth > 0 {
-			m.RLock()
-			break
-		}
 		raceDisable()
 		tk.lockEpoch = s.unlockEpch
 		s.park(tk, pkLock, site)
